@@ -142,11 +142,13 @@ func TestC18(t *testing.T) {
 			}
 		}
 	}
+	r.Floor("shares_exercised_under_accepted_ech", 4)
 	r.Floor("returning_hellos_offering_a_session", 100)
 	// (2) every share really works: pin the server to the share's group
 	type job struct {
-		t Target
-		g uint16
+		t   Target
+		g   uint16
+		ech bool
 	}
 	var jobs []job
 	for _, tg := range targets {
@@ -166,19 +168,35 @@ func TestC18(t *testing.T) {
 			if g == 0x6399 {
 				r.Count("kyber_draft00_shares_exercised_via_hooked_server", 1) // no stock server implements it: hook H7
 			}
-			jobs = append(jobs, job{tg, g})
+			jobs = append(jobs, job{tg, g, false})
+			if g != 0x6399 && tg.Pre == nil && tg.Edit == nil && tg.Spec == nil && targetHasECH(tg) {
+				// (parrots only: the inner hello always offers crypto/tls's three TLS 1.3 suites,
+				// so a custom spec that offers fewer fails on the suite, not on the share)
+				// the same share on a connection whose (real) ECH offer is accepted: the hello
+				// that is answered is the inner one, and every share sent must still be usable
+				jobs = append(jobs, job{tg, g, true})
+			}
 		}
 	}
 	parallel(len(jobs), func(i int) {
 		j := jobs[i]
 		scfg := peer.ServerConfig()
+		var extra func(c *tls.Config)
+		if j.ech {
+			scfg.EncryptedClientHelloKeys = peer.ECHServerKeys(true, gridECHKey())
+			extra = func(c *tls.Config) { c.EncryptedClientHelloConfigList = peer.ECHConfigList(gridECHKey()) }
+			r.Count("shares_exercised_under_accepted_ech_planned", 1)
+		}
 		gc := GridCase{Server: scfg}
 		if j.g == 0x6399 {
 			gc.Plan = &tls.VerifPlan{ForceGroup: tls.X25519Kyber768Draft00}
 		} else {
 			scfg.CurvePreferences = []tls.CurveID{tls.CurveID(j.g)}
 		}
-		h := RunCase(j.t, gc, "example.test", nil, peer.Opts{})
+		h := RunCase(j.t, gc, "example.test", extra, peer.Opts{})
+		if j.ech && h.OK() && h.CState.ECHAccepted {
+			r.Count("shares_exercised_under_accepted_ech", 1)
+		}
 		outcome := "ok"
 		for _, hm := range wire.ClientHellos(h.C2S) {
 			if ch, err := wire.ParseClientHello(hm); err == nil {
